@@ -63,10 +63,14 @@ int a_vec_setm(a_vec *ctx, a_size mem)
     {
         void *ptr;
         a_size m = ctx->mem_;
+        /* largest capacity whose size in bytes is representable by a_diff */
+        a_size const max = a_size_down(sizeof(void *), (A_SIZE_MAX >> 1) / ctx->siz_);
+        if (mem > max) { return A_OMEMORY; }
         do {
             m += (m >> 1) + 1;
         } while (m < mem);
         mem = a_size_up(sizeof(void *), m);
+        if (mem > max) { mem = max; }
         ptr = a_alloc(ctx->ptr_, ctx->siz_ * mem);
         if (ptr)
         {
